@@ -267,6 +267,29 @@ def placements(ctx, vectors):
             if l._protocol:
                 l._disconnect()
     vloop.run(loop, go3())
+
+    # one client object with a history: an authentic packet decoded, an altered one rejected, then the SAME altered packet once more
+    seq4 = {"reply": b""}
+
+    def on_bytes4(tr, data):
+        loop.call_later(0.0005, tr.feed, seq4["reply"])
+    net.on_bytes = on_bytes4
+
+    async def go4():
+        for v in rng.sample(anym, min(len(anym), ctx.pick(40, 600))):
+            l = LAN("10.0.0.1", 6444, 1)
+            res = None
+            for step, rep in enumerate((bytes(v["orig"]), bytes(v["q"]), bytes(v["q"]))):
+                seq4["reply"] = rep
+                try:
+                    r = await l.send(b"\xaa\x01", retries=1)
+                    res = {"k": "frame", "f": B(r[-1]) if r else []}
+                except Exception as e:  # noqa: BLE001 - code under test
+                    res = {"k": "raise", "exc": type(e).__name__}
+            out.append(dict(v, res=res, via="LAN.send, the same altered packet a second time on a client that decoded the authentic one before"))
+            if l._protocol:
+                l._disconnect()
+    vloop.run(loop, go4())
     net.on_bytes = on_bytes
     # inside a valid V3 packet
     s = sched.Session(version=3, retries=1, seed=ctx.seed)
